@@ -222,3 +222,40 @@ Qed.
 Lemma header_only_reads_nothing : src_header_only_reads_nothing = true ->
   forall h b1 b2, parse_header_only h b1 = parse_header_only h b2.
 Proof. intros _ h b1 b2. reflexivity. Qed.
+
+(* ---- the skeleton of Decoder::decode ------------------------------------------ *)
+Fixpoint run_steps (steps : list dstep) (c : codec) (src : bytes) : codec * bytes * dres :=
+  match steps with
+  | [] => (c, src, DError EOther)
+  | StHeader :: r =>
+      match c_state c with
+      | PNone =>
+          if blen src <? HEADER_LEN then (c, src, DNeedMore)
+          else
+            match header_of_bytes src with
+            | None => (c, src, DPanic)
+            | Some (h, rest) =>
+                let c1 := mkCodec h PHeaderParsed (c_limit c) in
+                if negb (header_valid h) then (c1, rest, DError EInvalidData)
+                else run_steps r c1 rest
+            end
+      | PHeaderParsed => run_steps r c src
+      end
+  | StTooLarge :: r =>
+      if c_limit c <? h_bodylen (c_hdr c) then (init_parser c, src, DFrame (ReqTooLarge (c_hdr c)))
+      else run_steps r c src
+  | StNeedMore :: r =>
+      if blen src <? h_bodylen (c_hdr c) then (c, src, DNeedMore)
+      else run_steps r c src
+  | StParse :: _ => parse_request c src
+  end.
+
+Lemma decode_steps_are_source : src_decode_steps_ok = true ->
+  forall c src, decode c src = run_steps src_decode_steps c src.
+Proof.
+  intros Hok c src. unfold src_decode_steps_ok in Hok.
+  gated Hok (unfold decode, decode_body, src_decode_steps; cbn [run_steps];
+    destruct (c_state c); [|reflexivity];
+    destruct (blen src <? HEADER_LEN); [reflexivity|];
+    destruct (header_of_bytes src) as [[h rest]|]; reflexivity).
+Qed.
